@@ -108,8 +108,9 @@ type c08PreEvent struct {
 
 // c08PrePass is one level of an op: the nodes to attach under parent (nil: the seed itself) and how.
 type c08PrePass struct {
-	uses     []verifseen.Use
-	redirect bool
+	uses      []verifseen.Use
+	redirect  bool
+	perParent bool // use i hangs under node i of the previous pass (if that one was fetched) instead of under the first
 }
 
 func c08PrePasses(op verifseen.Op) []c08PrePass {
@@ -124,6 +125,8 @@ func c08PrePasses(op verifseen.Op) []c08PrePass {
 		return []c08PrePass{{uses: op.Anc[:1]}, {uses: op.Anc[1:2]}, {uses: op.Leaves, redirect: true}}
 	case "asset-assets":
 		return []c08PrePass{{uses: op.Anc[:1]}, {uses: op.Anc[1:2]}, {uses: op.Leaves}}
+	case "assets-redirects":
+		return []c08PrePass{{uses: op.Anc[:1]}, {uses: op.Anc[1:]}, {uses: op.Leaves, redirect: true, perParent: true}}
 	}
 	panic("harness: unknown op kind " + op.Kind)
 }
@@ -136,14 +139,23 @@ func c08PreRun(c c08PreCase, ns string, begin func(oi int), judge func(oi, pass 
 			begin(oi)
 		}
 		var seed, parent *models.Item
+		var prev []verifseen.Node
 		id := 0
-		for pi, ps := range c08PrePasses(op) {
+		passes := c08PrePasses(op)
+		for pi, ps := range passes {
 			var nodes []verifseen.Node
-			for _, u := range ps.uses {
+			for ui, u := range ps.uses {
+				par := parent
+				if ps.perParent {
+					if ui >= len(prev) || prev[ui].Item.GetStatus() != models.ItemArchived {
+						continue // that asset was not fetched: nothing redirects
+					}
+					par = prev[ui].Item
+				}
 				id++
-				it := verifseen.NewItem(c.Pool, u, ns, fmt.Sprintf("%s-o%d-n%d", ns, oi, id), false, parent, ps.redirect)
+				it := verifseen.NewItem(c.Pool, u, ns, fmt.Sprintf("%s-o%d-n%d", ns, oi, id), false, par, ps.redirect)
 				typ := "seed"
-				if parent == nil {
+				if par == nil {
 					seed = it
 				} else {
 					// the archiver left the parent Archived; postprocessItem attaches the child
@@ -153,20 +165,36 @@ func c08PreRun(c c08PreCase, ns string, begin func(oi int), judge func(oi, pass 
 					} else {
 						typ = "asset"
 					}
-					if err := parent.AddChild(it, from); err != nil {
+					if err := par.AddChild(it, from); err != nil {
 						panic("harness: AddChild: " + err.Error())
 					}
 				}
 				nodes = append(nodes, verifseen.Node{Item: it, Key: verifseen.KeyOf(c.Pool, u, ns), Type: typ, Text: it.GetURL().Raw, Op: oi, NPar: len(c.Pool[u.L].Pairs), L: u.L})
+			}
+			if len(nodes) == 0 {
+				break
 			}
 			if err := seed.CheckConsistency(); err != nil {
 				panic("harness: inconsistent tree: " + err.Error())
 			}
 			preprocess("0", seed)
 			judge(oi, pi, op, seed, nodes)
+			fetched := func(n verifseen.Node) bool {
+				return n.Item.GetStatus() == models.ItemPreProcessed && n.Item.GetURL().GetRequest() != nil
+			}
+			if pi+1 < len(passes) && passes[pi+1].perParent {
+				// "archiver": every node with a request is fetched; each of them answers with a redirect (next pass)
+				for _, n := range nodes {
+					if fetched(n) {
+						n.Item.SetStatus(models.ItemArchived)
+					}
+				}
+				prev = nodes
+				continue
+			}
 			// the next level hangs under the first node of this pass, if it was fetched
-			next := nodes[0].Item
-			if next.GetStatus() != models.ItemPreProcessed || next.GetURL().GetRequest() == nil {
+			next := nodes[0]
+			if !fetched(next) {
 				break
 			}
 			for _, n := range nodes { // "archiver": every node with a request is fetched
@@ -179,7 +207,7 @@ func c08PreRun(c c08PreCase, ns string, begin func(oi int), judge func(oi, pass 
 					n.Item.SetStatus(models.ItemCompleted)
 				}
 			}
-			parent = next
+			parent, prev = next.Item, nodes
 		}
 	}
 }
